@@ -1132,6 +1132,27 @@ where
     kani::cover!(h.len_blockhash1 as usize == M && h.len_blockhash2 as usize == M);
     kani::cover!(h.len_blockhash1 == 0);
 }
+/// the first obligation alone, short block hashes (cheap companion: small formula, quick replay)
+fn c17_target_init_lite<const S2: usize, const M: usize>()
+where
+    BlockHashSize<S2>: ConstrainedBlockHashSize,
+    BlockHashSizes<64, S2>: ConstrainedBlockHashSizes,
+{
+    let h = any_hash::<64, S2, true>(M, M);
+    let mut t = dirty_target();
+    t.init_from::<64, S2>(&h);
+    let expect = spec_target_m::<64, S2, M>(&h);
+    assert!(same_target(&t, &expect));
+    kani::cover!(h.len_blockhash1 as usize == M && h.len_blockhash2 as usize == M);
+    kani::cover!(h.len_blockhash1 == 0 && h.len_blockhash2 > 0);
+    kani::cover!(h.len_blockhash2 == 0 && h.len_blockhash1 > 0);
+}
+#[kani::proof]
+#[kani::unwind(66)]
+fn c17_target_init_lite_short_m3() { c17_target_init_lite::<32, 3>() }
+#[kani::proof]
+#[kani::unwind(66)]
+fn c17_target_init_lite_long_m3() { c17_target_init_lite::<64, 3>() }
 #[kani::proof]
 #[kani::unwind(66)]
 fn c17_target_init_short_m6() { c17_target_init::<32, 6>() }
